@@ -444,12 +444,14 @@ func EntryByName(n string) *Entry {
 // recover is a normal return and is not seen here.
 func Invoke(e *Entry, env *Env, r *world.SimReader) (res *Result) {
 	res = &Result{}
-	AllocDelta = 0
-	measuring = false
+	if MeasureAlloc { // package-level meter state is touched only in the single-task C14 world
+		AllocDelta = 0
+		measuring = false
+	}
 	defer func() {
 		if p := recover(); p != nil {
 			res.Panic = analysePanic(p)
-			if measuring {
+			if MeasureAlloc && measuring {
 				m1() // the call panicked inside the measured window
 			}
 		}
